@@ -245,6 +245,9 @@ class RFrame:
             return self.derive(cells=OrderedDict((k, self.cells[k]) for k in key))
         if isinstance(key, RMask):
             return self.derive(mult=_ite(key.cond, self.mult, 0), note=f"filter[{key.note}]")
+        if isinstance(key, slice) and key.start is None and key.step is None and isinstance(key.stop, int) and key.stop == -1:
+            u = next_label_universe(interp, self)
+            return self.derive(mult=z3.If(u["is_last"], 0, to_z3(self.mult)), note="[:-1]")
         if isinstance(key, slice) and key.start is None and key.step is None and isinstance(key.stop, int) and key.stop == 0:
             out = self.derive(mult=z3.IntVal(0), note="[:0]")
             out.emptied = True
@@ -402,14 +405,57 @@ class RMask:
             return _Callable(agg)
         if name == "values":
             return self
+        if name == "index":
+            return RIndex(self.frame)
         if name == "astype":
             return _Callable(lambda *a, **k: RSeries(self.frame, Cell(NUM, z3.If(to_z3(self.cond), 1, 0)), "mask"))
         raise Unsupported(f"boolean Series.{name} (row-wise model)", node)
 
 
+class _OpaqueStamp(SOpaque):
+    """an unknown Timestamp: arithmetic with durations gives another unknown Timestamp"""
+
+    def sym_binop(self, interp, op, l, r, node):
+        return _OpaqueStamp("timestamp arithmetic")
+
+
+class Offset:
+    """a pandas frequency (DateOffset) of a regular index: compares with its alias, has a length in nanoseconds"""
+    pandas_kind = "Tick"
+    ALIASES = {"h": 3600 * 10 ** 9, "D": 86400 * 10 ** 9, "30min": 1800 * 10 ** 9, "15min": 900 * 10 ** 9, "min": 60 * 10 ** 9}
+
+    def __init__(self, alias):
+        self.alias = alias
+
+    def sym_compare(self, interp, op, l, r, node):
+        other = r if l is self else l
+        if isinstance(other, Offset):
+            other = other.alias
+        if isinstance(other, str) and isinstance(op, (ast.Eq, ast.NotEq)):
+            same = other in (self.alias, self.alias.upper(), self.alias.lower(), "1" + self.alias)
+            return same if isinstance(op, ast.Eq) else not same
+        if other is None and isinstance(op, (ast.Eq, ast.NotEq)):
+            return isinstance(op, ast.NotEq)
+        raise Unsupported("comparison of a frequency with this value", node)
+
+    def sym_getattr(self, interp, name, node):
+        if name == "nanos":
+            return self.ALIASES[self.alias]
+        if name == "n":
+            return 1
+        raise Unsupported(f"DateOffset.{name}", node)
+
+
 class RIndex:
     pandas_kind = "DatetimeIndex"
     opaque_iteration = True
+
+    def sym_setattr(self, interp, name, value, node):
+        if name == "freq":
+            # pandas turns an alias into an offset object (and validates it against the index: assumed conforming)
+            self.frame.index_freq = Offset(value) if isinstance(value, str) else value
+            return
+        raise Unsupported(f"attribute store Index.{name}", node)
 
     def __init__(self, frame):
         self.frame = frame
@@ -443,6 +489,9 @@ class RIndex:
             return _Callable(isin)
         if name in ("difference", "intersection", "union"):
             def setop(other, *a, **k):
+                if name == "union" and isinstance(other, list):
+                    # labels added to the index (a buffer label after the last one): the arbitrary row's cells are unaffected
+                    return RIndex(self.frame)
                 if not isinstance(other, RIndex):
                     raise Unsupported(f"index.{name} of a non-index", node)
                 m, o = self.frame.member(), other.frame.member()
@@ -452,6 +501,17 @@ class RIndex:
         if name == "empty":
             n = self.frame.sym_len(interp, node)
             return n == 0
+        if name == "freq":
+            return getattr(self.frame, "index_freq", None)
+        if name == "inferred_freq":
+            return getattr(self.frame, "inferred_freq", SOpaque("inferred_freq"))
+        if name in ("max", "min"):
+            return _Callable(lambda *a, **k: _OpaqueStamp(f"index.{name}()"))
+        if name == "union":
+            # labels added to the index (a buffer label after the last one): the arbitrary row's cells are unaffected
+            return _Callable(lambda other, *a, **k: RIndex(self.frame))
+        if name == "to_list" or name == "tolist":
+            return _Callable(lambda *a, **k: SOpaque("list of index labels"))
         if name in ("tz_convert", "tz_localize"):
             def tz(arg=None, *a, **k):
                 return RIndex(self.frame.derive(index_tag=f"{name}({arg!r}) of {self.frame.index_tag}"))
@@ -615,6 +675,9 @@ class RSeries:
             return _Callable(fill)
         if name == "copy":
             return _Callable(lambda *a, **k: RSeries(self.frame, Cell(c.kind, c.val), self.name))
+        if name == "median":
+            # a global quantity of the column: an unknown real (named after the frame and column so that contracts can refer to it)
+            return _Callable(lambda *a, **k: z3.Real(f"median!{self.frame.label}!{self.name}"))
         if name == "dropna":
             def dropna(*a, **k):
                 f = self.frame.derive(mult=_ite(c.is_nan(), 0, self.frame.mult), note=f"dropna({self.name})")
@@ -1028,6 +1091,27 @@ def install():
     @libmodels.api("is_last_row")
     def _is_last_row(interp, args, kwargs, node, frame):
         return next_label_universe(interp, args[0])["is_last"]
+
+    @libmodels.api("series_kind")
+    def _series_kind(interp, args, kwargs, node, frame):
+        return args[0].cell.kind
+
+    @libmodels.api("series_val")
+    def _series_val(interp, args, kwargs, node, frame):
+        return args[0].cell.val
+
+    @libmodels.api("series_member")
+    def _series_member(interp, args, kwargs, node, frame):
+        return args[0].frame.member()
+
+    @libmodels.api("median_of")
+    def _median_of(interp, args, kwargs, node, frame):
+        return z3.Real(f"median!{args[0].label}!{args[1]}")
+
+    @libmodels.api("set_inferred_freq")
+    def _set_inferred_freq(interp, args, kwargs, node, frame):
+        args[0].inferred_freq = args[1]
+        return None
 
     @libmodels.api("has_column")
     def _has_column(interp, args, kwargs, node, frame):
